@@ -1,2 +1,34 @@
-From CubedV Require Import Model.Util Model.Keys Model.Exec Model.ExecObs.
-Lemma placeholder_c06 : oplan_ok [[([(0,[0])], [(1,[0])])]; [([(1,[0])], [(2,[0])])]] = true. Proof. reflexivity. Qed.
+(* C06: tasks are idempotent and independent of order, repetition and placement. *)
+
+From CubedV Require Import Model.Util Model.Keys Model.Exec Model.ExecObs Proofs.ExecProofs.
+From Coq Require Import Permutation.
+
+
+Theorem C06_op_schedule_irrelevant : forall (V : Type) (o : op V) (sched : list (task V)) (s : store V),
+  op_ok V o -> (forall t, In t sched -> In t o) -> (forall t, In t o -> In t sched) ->
+  seq V (run_sched V s sched) (op_result V s o).
+Proof. exact (op_schedule_irrelevant). Qed.
+Print Assumptions C06_op_schedule_irrelevant.
+
+Theorem C06_run_task_idempotent : forall (V : Type) (t : task V) (s : store V),
+  task_local V t -> disjoint (t_reads V t) (t_writes V t) ->
+  seq V (run_task V (run_task V s t) t) (run_task V s t).
+Proof. exact (run_task_idempotent). Qed.
+Print Assumptions C06_run_task_idempotent.
+
+Theorem C06_late_reexecution_harmless : forall (V : Type) (p : list (op V)) (s : store V) (o : op V) (t : task V),
+  plan_ok V p -> In o p -> In t o ->
+  seq V (run_task V (run_plan V s p) t) (run_plan V s p).
+Proof. exact (late_reexecution_harmless). Qed.
+Print Assumptions C06_late_reexecution_harmless.
+
+Theorem C06_late_reexecution_midway : forall (V : Type) (p1 p2 : list (op V)) (s : store V) (o : op V) (t : task V),
+  plan_ok V (p1 ++ p2) -> In o p1 -> In t o ->
+  seq V (run_plan V (run_task V (run_plan V s p1) t) p2) (run_plan V s (p1 ++ p2)).
+Proof. exact (late_reexecution_midway). Qed.
+Print Assumptions C06_late_reexecution_midway.
+
+Example C06_side_conditions_checkable : oplan_ok [[([(0,[0])], [(1,[0])]); ([(0,[0])], [(1,[1])])]; [([(1,[0]); (1,[1])], [(2,[0])])]] = true.
+Proof. reflexivity. Qed.
+Example C06_side_conditions_reject_shared_chunk : oplan_ok [[([(0,[0])], [(1,[0])]); ([(0,[0])], [(1,[0])])]] = false.
+Proof. reflexivity. Qed.
